@@ -268,7 +268,7 @@ fn mutate_value(r: &mut Rng, v: &V) -> V {
     }
 }
 
-fn gen_case(r: &mut Rng, prop: &str) -> String {
+pub fn gen_case(r: &mut Rng, prop: &str) -> String {
     let name = gen_name(r);
     let args = gen_args(r);
     if r.chance(1, 3) {
@@ -415,15 +415,22 @@ fn alias_only(w: &str) -> String {
     }
 }
 
-pub fn main() {
-    let prop = std::env::var("HX_PROP").unwrap_or_else(|_| "C12".to_string());
-    let is_run = std::env::args().nth(1).as_deref() == Some("run");
-    let mut node = if is_run { Node::start() } else { None };
-    main_loop(&|r, _i| vec![gen_case(r, &prop)], &mut |f| {
-        if f[0].ends_with(".alias2") && f.len() >= 3 {
-            format!("{}\t{}", alias_only(f[1]), alias_only(f[2]))
-        } else {
-            run_case(&mut node, f)
-        }
-    });
+/// node is started on the first alias request
+pub struct NodeHandle(Option<Option<Node>>);
+
+impl NodeHandle {
+    pub fn new() -> NodeHandle {
+        NodeHandle(None)
+    }
+    fn get(&mut self) -> &mut Option<Node> {
+        self.0.get_or_insert_with(Node::start)
+    }
+}
+
+pub fn run(node: &mut NodeHandle, f: &[&str]) -> String {
+    if f[0].ends_with(".alias2") && f.len() >= 3 {
+        format!("{}\t{}", alias_only(f[1]), alias_only(f[2]))
+    } else {
+        run_case(node.get(), f)
+    }
 }
